@@ -1,5 +1,7 @@
 (* Props/C13Known.v — property C13: the text-level steps of the current tree that are NOT invariant under the edits,
-   each refuted by a concrete witness closed by computation (listed in /verif/known.d/C13.json under the same keys). *)
+   each refuted by a concrete witness closed by computation (listed in /verif/known.d/C13.json under the same keys).
+   The refutations of q_ts_loc_raw_span (fix c90fc92) and q_bom_kept (fix bbc2cf4) are gone: their witnesses are regression
+   theorems of Props/C13.v now. *)
 From TL Require Import Lib.Base Lib.GenTypes Model.PyStr Model.Edit.
 From TL Require Import Gen.IgnoreGen Model.Ignore Model.IgnoreSpec Actual.IgnoreActual.
 From TL Require Import Model.DryBase Model.DryPipe Gen.DryGen Model.Dry Actual.DryActual.
@@ -7,23 +9,10 @@ From TL Require Import Model.SrpTypes Gen.SrpGen Model.SrpSpec Model.Srp Actual.
 From TL Require Import Gen.EditGen Model.EditRun Actual.EditActual.
 From TL Require Import Proofs.EditDry Proofs.EditSrp Proofs.EditFacts.
 
-(* q_ts_loc_raw_span: a blank line inside a TypeScript class adds one to its reported lines of code *)
-Theorem C13_ts_loc_insert_refuted : exists lines c k x,
-  is_code x = false /\ k <= List.length lines /\
-  ts_count_loc srp_actual (ins k x lines) (EditSrp.shift_cls k c) <> ts_count_loc srp_actual lines c.
-Proof. exact EditSrp.ts_loc_insert_refuted. Qed.
-
 (* dry_raw_span_count: the size a DRY violation reports (and the overlap filter uses) is end - start + 1 *)
 Theorem C13_dry_span_count_refuted : exists s e k, s <= k /\ k < e /\
   dry_line_count (shift_ins k s) (shift_ins k e) <> dry_line_count s e.
 Proof. exact EditDry.dry_span_count_refuted. Qed.
-
-(* q_bom_kept: U+FEFF in front of `import os` makes the import line a token *)
-Theorem C13_dry_bom_refuted :
-  let f := ["import os"; "x = 1"; "y = 2"] in
-  DryPipe.tokenize (model_aparams dry_actual DPy) (map (EditDry.raw_aline false) (apply AddBOM f))
-  <> DryPipe.tokenize (model_aparams dry_actual DPy) (map (EditDry.raw_aline false) f).
-Proof. exact EditDry.dry_bom_refuted. Qed.
 
 (* q_splitlines_unicode: a form feed appended to line 1 (white space for every parser) moves the suppression parser's
    numbering of every later line: the same-line directive on line 2 no longer applies to the violation the parser reports on line 2 *)
@@ -34,15 +23,7 @@ Theorem C13_trailing_formfeed_refuted :
   should_ignore ignore_actual false (join_lines (apply (TrailWS 0 ff) f)) (shift (TrailWS 0 ff) 2) "nesting.excessive-depth" = false.
 Proof. vm_compute. split; reflexivity. Qed.
 
-(* q_bom_kept: U+FEFF in front of a block directive on line 1: the comment-prefix test of has_ignore_start_marker fails *)
-Theorem C13_bom_hides_first_line_directive_refuted :
-  let f := ["// thailint: ignore-start nesting"; "function g(x) {"; "// thailint: ignore-end"] in
-  should_ignore ignore_actual false (join_lines f) 2 "nesting.excessive-depth" = true /\
-  should_ignore ignore_actual false (join_lines (apply AddBOM f)) (shift AddBOM 2) "nesting.excessive-depth" = false.
-Proof. vm_compute. split; reflexivity. Qed.
-
 (* the claimed flags are what the source says (codec and splitting method read by Gen/EditGen.v) *)
 Theorem C13_actual_follows_source :
-  e_bom_kept edit_actual = negb (String.eqb file_read_encoding "utf-8-sig") /\
   q_splitlines_unicode (e_ign edit_actual) = forallb (String.eqb "splitlines") ignore_line_splitters.
-Proof. split; reflexivity. Qed.
+Proof. reflexivity. Qed.
